@@ -117,7 +117,90 @@ def gen_rule_seeds(sdir):
     return n
 
 
-SEED_GENERATORS = {"rules": gen_rule_seeds}
+def gen_pe_pair_seeds(sdir, seed=1, limit=4000):
+    """Systematic structure-aware expansion of the PE seeds already in `sdir`.
+
+    For every data directory of every seed, every pair (A, B) of 32-bit words in the first 48 bytes of
+    the directory's data where A looks like an RVA (maps into the file through the section table) and B
+    looks like a small count: place A's table so that exactly B entries of 2 / 4 / 8 bytes fit before the
+    end of the file, and raise B by 1, by 17 or double it - the shape "table ends with the data, count
+    says there is more".  A pseudo-random sample of `limit` variants (a pure function of `seed`) is kept.
+    """
+    import struct
+    variants = []
+    for path in sorted(glob.glob(os.path.join(sdir, "*"))):
+        try:
+            d = open(path, "rb").read()
+        except OSError:
+            continue
+        n = len(d)
+        if n < 0x200 or n > 400000 or d[:2] != b"MZ":
+            continue
+        pe = struct.unpack_from("<I", d, 0x3c)[0]
+        if pe + 0x108 > n or d[pe:pe + 4] != b"PE\0\0":
+            continue
+        nsec, optsz = struct.unpack_from("<H", d, pe + 6)[0], struct.unpack_from("<H", d, pe + 20)[0]
+        opt = pe + 24
+        magic = struct.unpack_from("<H", d, opt)[0]
+        ddbase = opt + (96 if magic == 0x10b else 112)
+        secs = []
+        for i in range(min(nsec, 32)):
+            sh = opt + optsz + i * 40
+            if sh + 40 > n:
+                break
+            vs, va, rs, raw = struct.unpack_from("<IIII", d, sh + 8)
+            secs.append((va, vs or rs or 1, raw))
+        if not secs:
+            continue
+
+        def rva2off(rva):
+            for va, vs, raw in secs:
+                if va <= rva < va + vs:
+                    return raw + rva - va
+            return None
+
+        lva, lvs, lraw = secs[-1]
+        if not lraw or lraw >= n:
+            continue
+        for dd in range(15):
+            if ddbase + dd * 8 + 8 > n:
+                break
+            drva, dsz = struct.unpack_from("<II", d, ddbase + dd * 8)
+            doff = rva2off(drva) if drva else None
+            if doff is None or doff + 48 > n:
+                continue
+            words = [struct.unpack_from("<I", d, doff + 4 * i)[0] for i in range(12)]
+            As = [i for i, w in enumerate(words) if w and (rva2off(w) or n) < n]
+            Bs = [i for i, w in enumerate(words) if 0 < w < 0x4000]
+            for a in As:
+                for b in Bs:
+                    if a == b:
+                        continue
+                    for esize in (2, 4, 8):
+                        for newb in (words[b] + 1, words[b] * 2, words[b] + 17):
+                            variants.append((path, doff, a, b, esize, newb, lva + (n - lraw) - esize * words[b]))
+    if not variants:
+        return 0
+    # deterministic sample
+    order = sorted(range(len(variants)), key=lambda i: hashlib.sha1(b"%d/%d" % (seed, i)).digest())
+    cache = {}
+    kept = 0
+    for i in order[:limit]:
+        path, doff, a, b, esize, newb, newa = variants[i]
+        if newa <= 0 or newa >= 1 << 32:
+            continue
+        if path not in cache:
+            cache = {path: bytearray(open(path, "rb").read())}
+        v = bytearray(cache[path])
+        struct.pack_into("<I", v, doff + 4 * a, newa)
+        struct.pack_into("<I", v, doff + 4 * b, newb & 0xffffffff)
+        with open(os.path.join(sdir, "zpair-%05d" % kept), "wb") as f:
+            f.write(v)
+        kept += 1
+    return kept
+
+
+SEED_GENERATORS = {"rules": gen_rule_seeds, "pe_pairs": gen_pe_pair_seeds}
 
 
 def _fuzz_env(P, target, work, known_path, leaks=True):
@@ -197,7 +280,10 @@ def run_fuzz(pid, tier, seed, replay=None):
                 os.makedirs(d)
             for i, f in enumerate(_seed_files(t.get("seeds", []))):
                 shutil.copyfile(f, os.path.join(sdir, "%04d-%s" % (i, os.path.basename(f)[:40])))
-            if t.get("seed_gen"):
+            if t.get("seed_gen") == "pe_pairs":
+                npairs = gen_pe_pair_seeds(sdir, seed, 1000 if tier == "quick" else 40000)
+                log("%s: %d systematic (table-at-end-of-data, count raised) variants added to the seeds" % (t["name"], npairs))
+            elif t.get("seed_gen"):
                 SEED_GENERATORS[t["seed_gen"]](sdir)
             env["VERIF_SEED_DIR"] = sdir
             cmd = [exe, "-fork=%d" % forks, "-max_total_time=%d" % budget, "-seed=%d" % (seed * 101 + ti + 1),
